@@ -3,9 +3,8 @@ import random
 import lib
 from props.common import *
 
-THEOREMS = ["C12_unsigned_inverse", "C12_unsigned_inverse'", "C12_unsigned_range", "C12_order_preserving",
-            "C12_signed_inverse", "C12_signed_inverse'", "C12_bytes_inverse",
-            "C12_header_bytes_distinct", "C12_tag_checked"]
+from props.theorems import THEOREMS as _T
+THEOREMS = _T['C12']
 
 
 def build(res):
